@@ -23,7 +23,10 @@ META = {
 }
 GROUP = "generator"
 REQ = "From RV Require Import Prelude.\nFrom Generator Require Import Model.\nOpen Scope N_scope."
-THEOREMS = []
+THEOREMS = ["C32_tokens_once", "C32_positions_contiguous", "C32_positions_without_cache", "C32_cache_handoff",
+            "C32_encoder_entry_kept_or_replaced", "C32_prev_tokens_complete", "C32_prev_tokens_equal_submitted",
+            "C32_prev_tokens_equal_submitted_when_consumed", "C32_oracle_reflects", "C32_model_satisfies_oracle",
+            "C32_unfixed_code_refuted", "C32_nonvacuous"]
 
 
 def classify(case):
@@ -42,11 +45,7 @@ def main(ctx):
                     "clear_prompt, process_prompt, Iterator::next, prev_tokens, prompt, kv_cache_len, with_logits_filter)"]
     ctx.assumptions += ["Model::run does not fail and returns one tensor per requested output (the mock does)"]
     ctx.audit(GROUP)
-    failed = ctx.prove(GROUP, "Props_C32", THEOREMS) if THEOREMS else []
-    if not THEOREMS:
-        ok, out = ctx.make(GROUP, ["Model.vo"])
-        if not ok:
-            raise vf.CheckerBroken("Model.v does not build: " + out[-1000:])
+    failed = ctx.prove(GROUP, "Props_C32", THEOREMS)
     bindir = ctx.harness(GROUP, profile="release", bins=["c32"], hooks=False)
     cases = ctx.gen_exec(bindir, "c32", ctx.n(2000, 40000), inputs=ctx.replay_inputs())
     ctx.correspond("generator_history", GROUP, REQ, cases, classify=classify, show="show",
